@@ -368,6 +368,8 @@ def build(spec):
 def configuration(spec):
     cfg = {"population": {"population_size": spec["pop"]},
            "randomness": {"map_size": spec.get("map_size", 100_000), "random_seed": spec["seed"]}}
+    if spec.get("additional_seed") is not None:
+        cfg["randomness"]["additional_seed"] = spec["additional_seed"]
     if spec["crn_keys"] == 1:
         cfg["randomness"]["key_columns"] = ["age"]
     elif spec["crn_keys"]:
